@@ -160,7 +160,7 @@ func (h ErrorHandler) recovery(w http.ResponseWriter, r *http.Request) {
 		httpserver.WriteTextResponse(w, http.StatusInternalServerError, fmt.Sprintf("%s\n\n%s", panicMsg, stack))
 	} else {
 		// Currently we don't use the function name, since file:line is more conventional
-		h.Log.Printf(panicMsg)
+		h.Log.Printf("%s", panicMsg) // (the message holds the requested URL: it is no format)
 		h.errorPage(w, r, http.StatusInternalServerError)
 	}
 }
